@@ -74,8 +74,6 @@ func replaces(p polCtx) bool { return p.pol == "replace" || p.pol == "arr-replac
 // modeler applies a configuration to a deep copy of the pre-filled value the
 // way the statement of C13 says Unpack does.
 type modeler struct {
-	// unmodelled: struct-list fields under a replacing policy (not demanded)
-	unmodelled map[*field]bool
 	// cfgs: the trees the pre-filled *Config fields were built from (by pointer)
 	cfgs map[uintptr]*model.Node
 	// cfgExp: the tree every mentioned *Config field has to hold afterwards
